@@ -10,6 +10,8 @@
     * about the hand-written index programs / operator-call skeleton `Model/RestartIdx.lean` (which are built from those
       translated pieces): c13_work_bound_herm, c13_work_bound_gen, c13_cshift_extra_solves, c13_op_args_herm, c13_op_args_gen,
       c13_termination, c13_compress_indices, c13_factorize_indices
+    * about the regenerated storage table of every `perform_op` call site (`Gen.Restart.opSites`, `opParamBinds`) and its lift to
+      the skeleton: c13_op_buffers_owned (no static / thread_local / global buffer is ever handed to the operator)
   What is NOT a theorem (stated, with witnesses, at the end): in-bounds Ritz reads of `GenEigsBase::restart` WITHOUT a pairing
   hypothesis (false: `example`s), NaN-freedom (false when A·v0 = 0; depends on rounding otherwise).
 
@@ -197,6 +199,54 @@ theorem c13_op_args_gen (nev ncv maxit k0 : Int) (bd0 : Int → Bool) (orc : Nat
         (fun it _ => genRestart_bound ncv _ (orc it).val (orc it).bd
           (by have := (c13_gen_k nev ncv (orc it).est (orc it).val (orc it).nconv h1 h2 (hnc it)).2.1.1; omega))
         _ 0).2.1 c hc
+
+/-! ## (5b) storage class of every buffer handed to the operator -/
+
+/-- STORAGE of every vector handed to the user's operator (the clause "touches no memory outside its own buffers and hands the
+    operator only valid, distinct vectors", structural part).  `Gen.Restart.opSites` lists, regenerated from the headers on every run,
+    EVERY `perform_op(x, y)` call made by a class that is not itself an operator, with the root object of each pointer (followed through
+    `.data()`, `&M(0,i)`, Map views, references, parameters -> `opParamBinds`) and that object's storage class.
+    (1) every root is owned by the running call: an AUTOMATIC local of the calling function or the data member m_fac_V / m_fac_f of
+        the factorization object (parameters: at every call in the library; `init`'s v0: the vector the user passed) — never
+        static / thread_local / global / unresolved storage, so two activations (nested inside perform_op, other solver objects,
+        other threads) cannot be handed the same vector;
+    (2) the call sites are exactly the seven known ones;
+    (3)-(5) lifted to the skeleton: for all sizes, all oracle outcomes, all histories, every call of `init(); compute()` of the
+        Hermitian family, of the general family, and every probe solve of the complex-shift post-processing hands buffers that some
+        call site of that family's functions hands, and every such call site hands only owned storage.
+    Closed facts (1), (2) and the four buffer shapes by `decide` over the finite table; (3)-(5) by the shape lemmas
+    `factorizeCalls_shape` / `cshift_shape` and induction over the restart loop (`computeLoop_all`). -/
+theorem c13_op_buffers_owned :
+    (∀ s ∈ opSites, siteOwned s = true) ∧
+    opSites.map (fun s => (s.cls, s.fn, s.ord)) =
+      [("Arnoldi", "expand_basis", 0), ("Arnoldi", "init", 0), ("Arnoldi", "init", 1), ("Arnoldi", "factorize_from", 0),
+       ("GenEigsComplexShiftSolver", "sort_ritzpair", 0), ("GenEigsComplexShiftSolver", "sort_ritzpair", 1), ("Lanczos", "factorize_from", 0)] ∧
+    (∀ (nev ncv maxit k0 : Int) (bd0 : Int → Bool) (orc : Nat → IterOracle α α),
+      ∀ c ∈ initCalls ++ (hermCompute nev ncv maxit k0 bd0 orc).calls, Call.owned .herm c) ∧
+    (∀ (nev ncv maxit k0 : Int) (bd0 : Int → Bool) (orc : Nat → IterOracle (α × α) α),
+      ∀ c ∈ initCalls ++ (genCompute nev ncv maxit k0 bd0 orc).calls, Call.owned .gen c) ∧
+    (∀ (nev : Int) (cplx : Int → Bool), ∀ c ∈ (cshiftLoop nev cplx 0).1, Call.owned .cshift c) := by
+  refine ⟨sites_owned, by decide, ?_, ?_, ?_⟩
+  · intro nev ncv maxit k0 bd0 orc c hc
+    rcases List.mem_append.mp hc with hc | hc
+    · exact initCalls_owned .herm (Or.inl rfl) c hc
+    · simp only [hermCompute] at hc
+      rcases List.mem_append.mp hc with hc | hc
+      · exact factorizeCalls_owned .herm (Or.inl rfl) bd0 _ _ c hc
+      · exact computeLoop_all _ _ _ orc (Call.owned .herm)
+          (fun it => hermRestartCalls_all _ ncv _ (orc it).bd (fun a b => factorizeCalls_owned .herm (Or.inl rfl) _ a b)) _ 0 c hc
+  · intro nev ncv maxit k0 bd0 orc c hc
+    rcases List.mem_append.mp hc with hc | hc
+    · exact initCalls_owned .gen (Or.inr rfl) c hc
+    · simp only [genCompute] at hc
+      rcases List.mem_append.mp hc with hc | hc
+      · exact factorizeCalls_owned .gen (Or.inr rfl) bd0 _ _ c hc
+      · exact computeLoop_all _ _ _ orc (Call.owned .gen)
+          (fun it => genRestartCalls_all _ ncv _ (orc it).val (orc it).bd (fun a b => factorizeCalls_owned .gen (Or.inr rfl) _ a b)) _ 0 c hc
+  · intro nev cplx c hc
+    rcases cshift_shape nev cplx _ 0 rfl c hc with rfl | rfl
+    · exact owned_probe.1
+    · exact owned_probe.2
 
 /-! ## (6) termination: the model functions are total Lean functions without fuel; their explicit loop bounds -/
 
